@@ -60,7 +60,7 @@ fn scenario(seed: u64, i: usize) -> Scenario {
 
 fn build(_ctx: &Ctx, tier: Tier, seed: u64) -> Vec<Job<'static>> {
     let n = match tier {
-        Tier::Quick => 40_000,
+        Tier::Quick => 80_000,
         Tier::Thorough => 2_000_000,
     };
     let j0 = Job { label: "two real daemons: wild link faults + KeepAlive prompts, suspend/resume at either side, blackouts into limit faults, abandon handlers".into(), n, gen: Box::new(move |i| scenario(seed, i)) };
